@@ -255,6 +255,44 @@ namespace
               c.check(okm, k + " job.lmax", [&]{ return "Lmax error " + std::to_string(ji.norm_lmax) + " for the constant error field with maximal component " + std::to_string(0.375 * N); });
             }
           }
+          // order 0 variants of the computers and jobs (separate helper specialisations)
+          if(which == 1)
+          {
+            auto i0 = Assembly::VectorErrorComputer<0>::compute(vec, ff, space, cf);
+            bool ok0 = i0.have_h0 && !i0.have_h1 && !i0.have_h2 && near(i0.norm_h0 * i0.norm_h0, x.h0, s0) && i0.norm_h1 == 0.0 && i0.norm_h2 == 0.0;
+            for(int i = 0; i < N; ++i) ok0 = ok0 && near(i0.norm_h0_comp[i] * i0.norm_h0_comp[i], x.h0c[(size_t)i], s0);
+            c.check(ok0, k + " computer0", [&]{ return "VectorErrorComputer<0>: H0 error " + std::to_string(i0.norm_h0) + " vs exact " + std::to_string(double(std::sqrt(x.h0))) + " / H1, H2 parts not zero / flags"; });
+            auto j0 = Assembly::integrate_error_function<0>(dom_asm, ff, vec, space, cub);
+            compare_info(j0, x, s0, 0, true, k + " job0");
+            c.check(j0.norm_h1_sqr == 0.0 && j0.norm_h2_sqr == 0.0 && j0.divergence_l2_sqr == 0.0, k + " job0.unused", "order 0 error job fills first/second order quantities");
+            auto d0 = Assembly::integrate_discrete_function<0>(dom_asm, vec, space, cub);
+            LD sp = 0; for(int i = 0; i < N; ++i) sp += mc.integrate_abs(P[(size_t)i] * P[(size_t)i]);
+            compare_info(d0, exact_of(P), sp, 0, false, k + " discrete0");
+            // scalar, component 0
+            PolyFunction<D> f0(fn[0]);
+            Vec v0(space.get_num_dofs());
+            for(Index j = 0; j < v0.size(); ++j) v0(j, vec(j)[0]);
+            auto s0i = Assembly::ScalarErrorComputer<0>::compute(v0, f0, space, cf);
+            c.check(s0i.have_h0 && !s0i.have_h1 && !s0i.have_h2 && near(s0i.norm_h0 * s0i.norm_h0, x.h0c[0], s0) && s0i.norm_h1 == 0.0 && s0i.norm_h2 == 0.0, kp + " error computer0",
+              [&]{ return "ScalarErrorComputer<0>: H0 error " + std::to_string(s0i.norm_h0) + " vs exact " + std::to_string(double(std::sqrt(x.h0c[0]))) + " / H1, H2 parts not zero / flags"; });
+            auto sj0 = Assembly::integrate_error_function<0>(dom_asm, f0, v0, space, cub);
+            c.check(near(sj0.norm_h0_sqr, x.h0c[0], s0) && near(std::fabs(sj0.value), std::fabs(x.val[0]), x.sval[0] + s0) && sj0.norm_h1_sqr == 0.0, kp + " error job0", "order 0 scalar error job: wrong H0 norm / value, or first order quantities filled");
+            auto sd0 = Assembly::integrate_discrete_function<0>(dom_asm, v0, space, cub);
+            c.check(near(sd0.norm_h0_sqr, mc.integrate(P[0] * P[0]), sp) && near(sd0.value, mc.integrate(P[0]), mc.integrate_abs(P[0])) && sd0.norm_h1_sqr == 0.0, kp + " error discrete0", "order 0 scalar discrete integral job: wrong H0 norm / value, or first order quantities filled");
+            // blocked cell job of order 0: plain dense cell vector
+            Assembly::CellErrorFunctionIntegralJob<PolyVectorFunction<D, N>, BV, SpaceType, 0> cj0(ff, vec, space, cub);
+            dom_asm.assemble(cj0);
+            auto r0 = cj0.result();
+            c.count("cell_error_jobs");
+            bool okn = (r0.vec.size() == ncells);
+            for(Index cell = 0; okn && cell < ncells; ++cell) okn = near(r0.vec(cell), exact_of(e, long(cell)).h0, s0);
+            c.check(okn && near(r0.integral_info.norm_h0_sqr, x.h0, s0), k + " cell-job0", "order 0 blocked cell error job: cell values or total differ from the exact H0 integrals");
+            // result holder built from (info, const vector&)
+            typename decltype(cj0)::FunctionCellIntegralType holder(r0.integral_info, r0.vec);
+            bool okh = (holder.integral_info.norm_h0_sqr == r0.integral_info.norm_h0_sqr) && (holder.vec.size() == r0.vec.size());
+            for(Index cell = 0; okh && cell < ncells; ++cell) okh = (holder.vec(cell) == r0.vec(cell));
+            c.check(okh, k + " cell-job.holder", "FunctionCellIntegralInfo(info, vector) holds other numbers");
+          }
           // cell-wise job: blocked
           if(which == 1 || which == 2)
           {
@@ -613,7 +651,8 @@ int main(int argc, char** argv)
     "Lmax is a maximum over cubature points: checked for constant errors only",
     "TraceAssembler::assemble_flow_accum is marked provisional ('use at own risk') and has no stated integral: not covered",
     "FunctionIntegralInfo::synchronize (MPI), print_norms/print_field_info (printing) are out of scope",
-    "FunctionCellIntegralInfo copy assignment is not exercised (flows off the end of a non-void function in /repo: observation)",
+    "copy/conversion assignment of the result holders (FunctionCellIntegralInfo::operator=, ScalarErrorInfo/VectorErrorInfo converting operator=) is not an assembly entry point and not exercised (they flow off the end of a non-void function in /repo: observation); copy construction is",
+    "ScalarErrorComputer<.., sub_dimensional_=true> (surface meshes with world dim > shape dim), Scalar/VectorErrorInfo::synchronize (MPI), format_string / operator<< (printing) are out of scope",
     "oracle integrates polynomials only"};
   spec.max_fail_per_worker = 100000;
   return verif::run(spec, argc, argv, [&](verif::Ctx& c) {
